@@ -79,6 +79,7 @@ func newWorkerResult() *WorkerResult {
 
 type Interp struct {
 	rangeFixed bool
+	inGoroutine int
 	skipExt    *ssa.Function // callReal: the next call of this function runs its SSA, not its external
 	prog          *ssa.Program
 	tb            *TermTab
